@@ -1,11 +1,13 @@
 (* Single entry point of the extracted model: one case in, one canonical ASCII line out. *)
 From Coq Require Import String.
-From Ruler Require Import Bytes Show Base62 Sha256.
+From Ruler Require Import Bytes Show Base62 Sha256 Bincode StateFiles.
 
 Inductive case :=
 | CEncode62 (b : bytes)
 | CDecode62 (s : bytes)
-| CSha256 (m : bytes).
+| CSha256 (m : bytes)
+| CDeHistory (b : bytes)
+| CDeTable (b : bytes).
 
 Definition show_dec_err (e : dec_err) : bytes :=
   match e with
@@ -25,4 +27,6 @@ Definition run_case (c : case) : bytes :=
   | CEncode62 b => show_bytes (encode62 b)
   | CDecode62 s => show_result show_bytes show_dec_err (decode62 s)
   | CSha256 m => show_bytes (sha256 m)
+  | CDeHistory b => show_de_history b
+  | CDeTable b => show_de_table b
   end.
